@@ -14,7 +14,16 @@ search (model-free): the property evaluated directly on the returned arrays with
 """
 import numpy as np
 
-from .common import plist, frac
+from .common import plist, frac as _frac
+
+
+def frac(x):
+    """exact rational token of a double; a non-finite value (possible only from a broken implementation) becomes a token
+    the driver rejects (`bad-request`), so the request is reported as a disagreement instead of crashing the harness"""
+    try:
+        return _frac(x)
+    except (ValueError, OverflowError):
+        return 'nonfinite'
 
 THEOREMS = [
     'Pyiga.Props.C19.findspan_spec', 'Pyiga.Props.C19.findspan_unique', 'Pyiga.Props.C19.findspan_right_end',
@@ -133,16 +142,19 @@ class Stream:
         ctx = self.ctx
         got = self.model_parallel()
         ndis = 0; nskip = 0
+        per_kind = {}
         for r, e, g, (kind, oracle, info) in zip(self.req, self.exp, got, self.meta):
             if skip(e, g):
                 nskip += 1
                 continue
             if e != g:
                 ndis += 1
-                if ndis > 25:
-                    continue
                 if callable(kind):
                     kind, oracle = kind(e, g)
+                # at most 3 searches per call site (kind), 60 in total
+                per_kind[kind] = per_kind.get(kind, 0) + 1
+                if per_kind[kind] > 3 or sum(min(v, 3) for v in per_kind.values()) > 60:
+                    continue
                 found = None
                 if oracle is not None:
                     try:
@@ -153,6 +165,8 @@ class Stream:
                               'model and implementation disagree on `%s`%s' % (kind, (': ' + found) if found else ''),
                               {'request': r[:3000], 'implementation': e[:1500], 'model': g[:1500], 'oracle': found,
                                'input': info, 'stream': '%s (%s)' % (name, self.exe), 'theorems': theorems}, found is not None)
+        if per_kind:
+            ctx.extra['disagreements_per_call_site_' + name] = per_kind
         ctx.obligation('correspondence stream %s: %d requests, model == implementation' % (name, len(self.req)), ndis == 0,
                        '%d disagreements' % ndis)
         ctx.extra['requests_' + name] = len(self.req)
